@@ -168,7 +168,11 @@ NEW_CTX = ('root', 'child', 'multi', 'linked')
 def run_history(hspec, drv):
     h, recs = play(hspec)
     models = ask_histories(drv, [h])
-    return judge_history(hspec, h, recs, models[0] if models else None), recs
+    fs = judge_history(hspec, h, recs, models[0] if models else None)
+    for o, d in rl.ask_tables(drv, h.sig_items())[:1]:
+        fs.append(('mismatch', 'definition-table', 'overload %d: the Lean model of get_function_definition and yaql '
+                   'disagree: %s' % (o['id'], '; '.join(d[:3]))))
+    return fs, recs
 
 
 def shrink_history(hspec, drv, kind, key):
@@ -302,7 +306,11 @@ def run_case(case, drv):
         req = dict(p='Resolve', fams=[dict(layers=fam.enc_layers(), calls=[call.enc()])])
         req['lat'] = rl.T.lattice()
         model = drv.ask(req)['out'][0][0]
-    return compare(fam, call, model) + (fam,)
+    fs, real = compare(fam, call, model)
+    for o, d in rl.ask_tables(drv, fam.sig_items())[:1]:
+        fs.append(('mismatch', 'definition-table', 'overload %d: the Lean model of get_function_definition and yaql '
+                   'disagree: %s' % (o['id'], '; '.join(d[:3]))))
+    return fs, real, fam
 
 
 def shrink(case, drv, kind, key):
@@ -379,13 +387,13 @@ def features(case, real, hist):
 def run(env, res):
     drv = env['driver']
     rng = common.make_rng(env['seed'], 'C05')
-    n_fam = 12000 if env["tier"] == "quick" else 110000
+    n_fam = 9000 if env["tier"] == "quick" else 90000
     res.rule = ('random overload families (1-4 layers, 0-4 overloads per layer, parameters positional/defaulted/keyword-only/'
                 '*/**/hidden/lazy/constant over the lattice Base>L,R>D + int/str/object/NoneType) with 3 calls each derived '
                 'from a random overload\'s signature and mutated; distinct = distinct (family, call); non-trivial = '
                 'at least two overloads and the outcome is not Unknown')
     hist = {}
-    n_hist = 4500 if env["tier"] == "quick" else 45000
+    n_hist = 3600 if env["tier"] == "quick" else 36000
     res.rule += ('; plus call histories on live Context forests (1-7 contexts): overloads of a pool of 2-6 are registered '
                  'step by step (same / ancestor / descendant / sibling contexts, some exclusively, some twice), deleted '
                  'with delete_function, children are created before and after, and calls - new ones and repeated '
@@ -427,6 +435,11 @@ def run(env, res):
                                                     for _, fam, calls, _ in batch])
             req['lat'] = rl.T.lattice()
             models = drv.ask(req)['out']
+            for o, d in rl.ask_tables(drv, [it for _, fam, _, _ in batch for it in fam.sig_items()])[:2]:
+                res.fail('mismatch', 'definition-table', 'overload %d: the Lean model of get_function_definition and '
+                         'yaql disagree: %s' % (o['id'], '; '.join(d[:3])), dict(ospec=o))
+        hist['definitions-compared'] = hist.get('definitions-compared', 0) + sum(
+            len(fam.fds) for _, fam, _, _ in batch)
         for bi, (layers, fam, calls, cspecs) in enumerate(batch):
             for ci, call in enumerate(calls):
                 case = dict(layers=layers, call=cspecs[ci])
@@ -469,6 +482,10 @@ def run(env, res):
         if not hbatch:
             return
         models = ask_histories(drv, [h for _, h, _ in hbatch])
+        for o, d in rl.ask_tables(drv, [it for _, h, _ in hbatch for it in h.sig_items()])[:2]:
+            res.fail('mismatch', 'definition-table', 'overload %d: the Lean model of get_function_definition and '
+                     'yaql disagree: %s' % (o['id'], '; '.join(d[:3])), dict(ospec=o))
+        hist['definitions-compared'] = hist.get('definitions-compared', 0) + sum(len(h.fds) for _, h, _ in hbatch)
         for bi, (hspec, h, recs) in enumerate(hbatch):
             fs = judge_history(hspec, h, recs, models[bi] if models else None)
             ncalls = len(recs)
